@@ -783,3 +783,115 @@ Proof.
   assert (Hb : (G_bufs < length m)%nat) by (apply nth_error_Some; unfold tab_at in Hm; congruence).
   rewrite (store_cell _ G_bufs_cnt c0); [reflexivity|]. apply cell_at_upd_other; [exact Hb|discriminate|exact Hc].
 Qed.
+
+(* ------------------------------------------------------------------ bufs_free (free(path); lbuf_free(lb) -- untranslated; memset of the slot) *)
+Lemma free_other v m u m1 g : do_builtin_m BFree [v] m = Ok (u, m1) -> v <> VPtr g 0 -> nth_error m1 g = nth_error m g.
+Proof.
+  intros H Hne. destruct v as [|z|b o]; cbn [do_builtin_m] in H; [discriminate| |].
+  - destruct z; try discriminate. injection H as _ <-. reflexivity.
+  - destruct o; try discriminate. destruct (nth_error m b) as [[|c blk]|] eqn:E; try discriminate.
+    destruct (CLite.set_nth m b []) as [m'|] eqn:E2; [|discriminate]. injection H as _ <-.
+    assert (Hb : (b < length m)%nat) by (apply nth_error_Some; congruence).
+    rewrite set_nth_upd in E2 by exact Hb. injection E2 as <-. apply nth_error_upd_other; [exact Hb|]. intro Eq. subst g. apply Hne. reflexivity.
+Qed.
+Lemma slot_zero_cells : slot_cells cs_zero = repeat (VInt 0) 41.
+Proof. reflexivity. Qed.
+Lemma zero_slot_ok : slot_ok cs_zero.
+Proof. reflexivity. Qed.
+(* memset(&bufs[i], 0, sizeof(bufs[i])) on the cells *)
+Lemma zero_cells t i : tab_ok t -> (i < 16)%nat -> put_cells (tab_cells t) (41 * i) (repeat (VInt 0) 41) = tab_cells (upd t i cs_zero).
+Proof.
+  intros [Hl Hs] Hi. rewrite <- slot_zero_cells. replace (slot_cells cs_zero) with (flat_map slot_cells [cs_zero]) by (cbn [flat_map]; apply app_nil_r).
+  unfold tab_cells. rewrite (chunks_put slot_cells 41 t [cs_zero] i (tab_chunks t Hs)); [unfold upd; cbn [length app]; replace (i + 1)%nat with (S i) by lia; reflexivity| |cbn [length]; lia].
+  apply tab_chunks. constructor; [exact zero_slot_ok|constructor].
+Qed.
+
+(* what bufs_free(i) does to the memory: nothing when lb is NULL; else free(path) must be legal (heap hypothesis) and not hit
+   the table, the oracle for lbuf_free answers mb and keeps the table block, and the slot is zeroed *)
+Definition freed (ext : nat -> list val -> mem -> res (val * mem)) (t : list cslot) (i : nat) (m mc : mem) : Prop :=
+  if is_null (cs_lb (nths t i)) then mc = m
+  else exists uf ma ul mb, do_builtin_m BFree [cs_path (nths t i)] m = Ok (uf, ma) /\ cs_path (nths t i) <> VPtr G_bufs 0 /\
+         ext X_lbuf_free [cs_lb (nths t i)] ma = Ok (ul, mb) /\ nth_error mb G_bufs = nth_error ma G_bufs /\
+         mc = upd mb G_bufs (tab_cells (upd t i cs_zero)).
+
+Theorem tr_bufs_free ext m t i mc d fuel : tab_at m t -> tab_ok t -> (i < 16)%nat ->
+  ptr_val (cs_lb (nths t i)) -> ptr_val (cs_path (nths t i)) -> freed ext t i m mc ->
+  callx ext cprog fuel (S (S d)) F_bufs_free [VInt (Z.of_nat i)] m = Ok (VUndef, mc).
+Proof.
+  intros Hm Ht Hi Hlb Hp Hfr. pose proof Ht as [Hl Hs]. unfold freed in Hfr.
+  enterx F_bufs_free cf_bufs_free. xstep. slot_off i 1%nat.
+  rewrite (tab_load m t i 1 (cs_lb (nths t i)) _ Hm Hs) by (try lia; reflexivity).
+  destruct Hlb as [E|[bl [ol E]]]; rewrite E in *; cbn [is_null] in Hfr; xstep; [rewrite Hfr; reflexivity|].
+  destruct Hfr as (uf & ma & ul & mb & Hf1 & Hne & Hf2 & Hfr2 & ->).
+  slot_off i 0%nat. rewrite (tab_load m t i 0 (cs_path (nths t i)) _ Hm Hs) by (try lia; reflexivity).
+  assert (Hma : tab_at ma t) by (unfold tab_at; rewrite (free_other _ _ _ _ G_bufs Hf1 Hne); exact Hm).
+  assert (Hmb : tab_at mb t) by (unfold tab_at; rewrite Hfr2; exact Hma).
+  destruct Hp as [Ep|[pb [op Ep]]]; rewrite Ep in *; xstep; rewrite Hf1; xstep;
+    (slot_off i 1%nat; rewrite (tab_load ma t i 1 (cs_lb (nths t i)) _ Hma Hs) by (try lia; reflexivity); rewrite E; xstep;
+     rewrite callx_S, x_lbuf_free_none, Hf2; xstep;
+     change (chk U64 (80 * 41)) with (@Ok Z 3280); xstep;
+     change (if 80 =? 0 then Err EDivZero else chk U64 (3280 ÷ 80)) with (@Ok Z 41); xstep;
+     rewrite (memset_ok mb G_bufs (0 + 41 * Z.of_nat i) 0 41 _ Hmb) by (rewrite ?(tab_len t Ht); lia);
+     xstep; change (Z.to_nat 41) with 41%nat; change (wrap U8 0) with 0; replace (Z.to_nat (0 + 41 * Z.of_nat i)) with (41 * i)%nat by lia;
+     rewrite (zero_cells t i Ht Hi); reflexivity).
+Qed.
+
+(* ------------------------------------------------------------------ bufs_shift *)
+Lemma shift_cells t : tab_ok t ->
+  put_cells (put_cells (tab_cells t) (41 * 0) (firstn (41 * 15) (skipn (41 * 1) (tab_cells t)))) (41 * 15) (repeat (VInt 0) 41) = tab_cells (tl t ++ [cs_zero]).
+Proof.
+  intros [Hl Hs]. pose proof (tab_chunks t Hs) as Hc. unfold tab_cells.
+  rewrite (chunks_skipn slot_cells 41 t Hc).
+  assert (Hc1 : chunks_ok slot_cells 41 (skipn 1 t)) by (apply tab_chunks, Forall_skipn'; exact Hs).
+  rewrite (chunks_firstn slot_cells 41 (skipn 1 t) Hc1).
+  rewrite (firstn_all2 (skipn 1 t)) by (rewrite skipn_length; lia).
+  rewrite (chunks_put slot_cells 41 t (skipn 1 t) 0 Hc Hc1) by (rewrite skipn_length; lia).
+  rewrite skipn_length, Hl. cbn [firstn app Nat.add Nat.sub].
+  set (mid := skipn 1 t ++ skipn 15 t).
+  assert (Hcm : chunks_ok slot_cells 41 mid) by (apply tab_chunks; unfold mid; apply Forall_app; split; apply Forall_skipn'; exact Hs).
+  rewrite <- slot_zero_cells. replace (slot_cells cs_zero) with (flat_map slot_cells [cs_zero]) by (cbn [flat_map]; apply app_nil_r).
+  rewrite (chunks_put slot_cells 41 mid [cs_zero] 15 Hcm).
+  2:{ apply tab_chunks. constructor; [exact zero_slot_ok|constructor]. }
+  2:{ unfold mid. rewrite app_length, !skipn_length. cbn [length]. lia. }
+  f_equal. unfold mid. destruct t as [|x rest]; [discriminate Hl|]. cbn [tl]. cbn [length] in Hl.
+  change (skipn 1 (x :: rest)) with rest.
+  rewrite firstn_app. rewrite (firstn_all2 rest) by lia. replace (15 - length rest)%nat with 0%nat by lia. rewrite firstn_O, app_nil_r.
+  cbn [length]. rewrite (skipn_all2 (rest ++ skipn 15 (x :: rest))) by (rewrite app_length, skipn_length; cbn [length]; lia). rewrite app_nil_r. reflexivity.
+Qed.
+
+(* bufs_shift(): bufs_free(0) (its effect: mc with table t', see tr_bufs_free), the slots 1..15 move down by one, slot 15 is
+   zeroed, bufs_load().  Relative to what bufs_free left and to the reg_put oracle. *)
+Theorem tr_bufs_shift ext m mc t' r0 o0 tp0 l0 td0 uf u m' d fuel :
+  callx ext cprog fuel (S (S d)) F_bufs_free [VInt 0] m = Ok (uf, mc) ->
+  tab_at mc t' -> tab_ok t' -> globs_at mc r0 o0 tp0 l0 td0 ->
+  let t2 := tl t' ++ [cs_zero] in
+  let sx := nths t2 0 in
+  slot_ints sx -> ptr_val (cs_path sx) ->
+  ext X_reg_put [VInt 37; path_arg (cs_path sx); VInt 0]
+      (set_globs (upd mc G_bufs (tab_cells t2)) (cs_row sx) (cs_off sx) (cs_top sx) (cs_left sx) (cs_td sx)) = Ok (u, m') ->
+  callx ext cprog fuel (S (S (S d))) F_bufs_shift [] m = Ok (VUndef, m').
+Proof.
+  intros Hfree Hm Ht Hg t2 sx Hints Hp Hext. pose proof Ht as [Hl Hs].
+  assert (Hb : (G_bufs < length mc)%nat) by (apply nth_error_Some; unfold tab_at in Hm; congruence).
+  enterx F_bufs_shift cf_bufs_shift. xstep. rewrite Hfree. xstep.
+  change (chk U64 (1280 - 80)) with (@Ok Z 1200). xstep. change (chk U64 (1200 * 41)) with (@Ok Z 49200). xstep.
+  change (if 80 =? 0 then Err EDivZero else chk U64 (49200 ÷ 80)) with (@Ok Z 615). xstep.
+  rewrite (memmove_ok mc G_bufs (0 + 41 * 0) G_bufs (0 + 41 * 1) 615 _ _ Hm Hm) by (rewrite ?(tab_len t' Ht); lia).
+  xstep. change (Z.to_nat (0 + 41 * 0)) with (41 * 0)%nat. change (Z.to_nat (0 + 41 * 1)) with (41 * 1)%nat. change (Z.to_nat 615) with (41 * 15)%nat.
+  len16. xstep. change (wrap U64 1) with 1. change (chk U64 (16 - 1)) with (@Ok Z 15). xstep.
+  change (chk U64 (80 * 41)) with (@Ok Z 3280). xstep.
+  change (if 80 =? 0 then Err EDivZero else chk U64 (3280 ÷ 80)) with (@Ok Z 41). xstep.
+  set (Tmid := put_cells (tab_cells t') (41 * 0) (firstn (41 * 15) (skipn (41 * 1) (tab_cells t')))).
+  assert (HTmid : length Tmid = 656%nat).
+  { unfold Tmid. rewrite put_cells_length; rewrite ?firstn_length, ?skipn_length, ?(tab_len t' Ht); lia. }
+  rewrite (memset_ok (upd mc G_bufs Tmid) G_bufs (0 + 41 * 15) 0 41 Tmid) by (try (apply mem_upd_same; exact Hb); rewrite ?HTmid; lia).
+  xstep. change (Z.to_nat 41) with 41%nat. change (wrap U8 0) with 0. change (Z.to_nat (0 + 41 * 15)) with (41 * 15)%nat.
+  rewrite upd_upd by exact Hb. unfold Tmid. rewrite (shift_cells t' Ht). fold t2.
+  set (m2 := upd mc G_bufs (tab_cells t2)) in *.
+  assert (Hm2 : tab_at m2 t2) by (apply (tab_at_upd mc t' t2 Hm)).
+  assert (Ht2 : tab_ok t2).
+  { unfold t2. destruct t' as [|x rest]; [discriminate Hl|]. cbn [tl]. cbn [length] in Hl. split; [rewrite app_length; cbn [length]; lia|].
+    inversion Hs; subst. apply Forall_app. split; [assumption|]. constructor; [exact zero_slot_ok|constructor]. }
+  pose proof (globs_upd_bufs mc (tab_cells t2) _ _ _ _ _ Hb Hg) as Hg2. fold m2 in Hg2.
+  rewrite (tr_bufs_load ext m2 t2 r0 o0 tp0 l0 td0 u m' d fuel Hm2 Ht2 Hg2); try assumption. reflexivity.
+Qed.
